@@ -15,7 +15,7 @@ namespace Cardutil
 /-- Python exception kinds that are *not* the library's own error. -/
 inductive ExcKind
   | valueError | structError | binasciiError | indexError | unicodeError | typeError
-  | keyError | overflowError | assertionError | other
+  | keyError | overflowError | assertionError | decimalError | other
   deriving Repr, DecidableEq, Inhabited
 
 def ExcKind.name : ExcKind → String
@@ -28,6 +28,7 @@ def ExcKind.name : ExcKind → String
   | .keyError => "KeyError"
   | .overflowError => "OverflowError"
   | .assertionError => "AssertionError"
+  | .decimalError => "InvalidOperation"
   | .other => "Exception"
 
 /-- The result of running a modelled Python function.
